@@ -247,7 +247,7 @@ CLAIMED = {
              "(set_returns_path); reading depends on db/root/depth only (from_db_same). The key-size guard 1..32 is C18. The integer "
              "bit arithmetic of smt.py as written (to_int, path & target_bit, shifts over reversed(branch)) is transcribed separately "
              "(Model/SmtInt.lean - this is what runs against the code) and proved equal to the bit-list model (SmtInt.get_agrees, "
-             "set_agrees, calc_root_agrees, bit_is_list_element).",
+             "set_agrees, calc_root_agrees, bit_is_list_element). WITH ROLLBACKS (Props/C14Rollback.lean): events = set/delete or tree.root_hash := the root after the first i events (= from_db at that root); the database only grows and, the final database being functional, EVERY version's root represents that version's contents in the final database, and get reads the current version (rollback_history_rep, rollback_history_get; NonVacuity14); the quick check assigns root_hash on the live object mid-history.",
         technique="Lean 4 proof (representation invariant over a write-log database, induction over histories) + correspondence check",
         design_ref="6/C14"),
     "C15": dict(
